@@ -328,6 +328,9 @@ func init() {
 						bad = true
 						return
 					}
+					if rb.Err != "" {
+						continue // the operation fails to evaluate on this database: says nothing about the flagged part
+					}
 					rec.NPrem++
 					if len(rb.Series) > 0 && (rec.NonEmpty == 0 || len(db) < len(rec.WitNE.DB)) {
 						rec.WitNE = lfWitness{DB: orEmpty(db), Res: rb.Series}
@@ -342,9 +345,9 @@ func init() {
 							bad = true
 							return
 						}
-						if !sameSeries(rb.Series, rl.Series) {
+						if rl.Err == "" && !sameSeries(rb.Series, rl.Series) {
 							if rec.Differs == 0 || len(db) < len(rec.WitDiff.DB) {
-								rec.WitDiff = lfWitness{DB: orEmpty(db), Res: orEmpty(rb.Series), Err: rb.Err != ""}
+								rec.WitDiff = lfWitness{DB: orEmpty(db), Res: orEmpty(rb.Series)}
 								rec.LhsDiff = orEmpty(rl.Series)
 							}
 							rec.Differs++
